@@ -115,6 +115,7 @@ type SimCfg struct {
 	RandomHandoff bool    `json:"random_handoff"`
 	GateProb      float64 `json:"gate_prob,omitempty"`
 	Sticky        float64 `json:"sticky,omitempty"`
+	Priority      bool    `json:"priority,omitempty"` // gate scheduler: priority (PCT) instead of uniform choice
 	SkewPPM       int64   `json:"skew_ppm,omitempty"`
 	AggrUS        int64   `json:"aggr_us,omitempty"`
 	SchedSeed     uint64  `json:"sched_seed,omitempty"`
@@ -124,7 +125,7 @@ type SimCfg struct {
 
 func (s SimCfg) Config() simrt.Config {
 	c := simrt.Config{ShuffleTies: s.ShuffleTies, ShuffleMaps: s.ShuffleMaps, RandomHandoff: s.RandomHandoff,
-		GateProb: s.GateProb, Sticky: s.Sticky, TimerSkewPPM: s.SkewPPM, BatchInstant: s.BatchInstant, BatchWindow: us(s.BatchWindowUS)}
+		GateProb: s.GateProb, Sticky: s.Sticky, Priority: s.Priority, TimerSkewPPM: s.SkewPPM, BatchInstant: s.BatchInstant, BatchWindow: us(s.BatchWindowUS)}
 	if s.AggrUS > 0 {
 		c.Knobs = map[string]int64{"bgp.aggr": s.AggrUS * 1000}
 	}
